@@ -390,11 +390,17 @@ def run_case(case):
                     if change == "translate-all" or v.index == inv[bidx]:
                         v.translate([10.0, -3.0, 0.5] if change == "translate-all" else [0.3, 0.2, 0.1])
                 now = np.array([v.position for v in obj.vertices])
+            if interior:
+                # ... and a point fixed by the position it has NOW stays there
+                sm.fix_points([now[inv[interior[0]]].copy()])
             sm.smooth(3)
         except Exception as err:
             bad("smooth-raised", f"{type(err).__name__}: {err}", change=change)
             continue
         after = current_positions(obj, dim, pos)
+        if interior and not np.array_equal(after[inv[interior[0]]], now[inv[interior[0]]]):
+            i = interior[0]
+            bad("point-fixed-by-its-current-position-moved", f"after '{change}': interior point {i} was fixed by fix_points() with the position it had then and moved by {np.linalg.norm(after[inv[i]] - now[inv[i]]):.3g} in the next smooth()", change=change)
         moved = [i for i in boundary if not np.array_equal(after[inv[i]], now[inv[i]])]
         if moved:
             i = moved[0]
